@@ -52,6 +52,8 @@ func exec(op string) vlib.Res {
 		return execAdCut(f)
 	case "store priv":
 		return execStorePriv(f)
+	case "keycache run":
+		return execKeyCache(f)
 	case "signers find":
 		return execSigners(f)
 	case "wild answer":
@@ -129,7 +131,11 @@ func gen(r *vlib.R, n int, tier string, emit func(string)) {
 	for rest > 0 {
 		switch k := r.Intn(34); {
 		case k == 31:
-			emit(genStorePriv(r))
+			if r.Bool() {
+				emit(genStorePriv(r))
+			} else {
+				emit(genKeyCache(r))
+			}
 		case k == 32:
 			emit(genAdCut(r))
 		case k == 33:
